@@ -34,8 +34,10 @@ class Uniform(Distribution):
             # probability (pdf) as 1 divided by the area, the convert 
             # to logpdf. Special case if scalar.
             diff = self.high - self.low
-            if isinstance(diff, (list, tuple, np.ndarray)): 
+            if isinstance(diff, (list, tuple, np.ndarray)) and np.size(diff) > 1: 
                 v= np.prod(diff)
+            elif isinstance(diff, (list, tuple, np.ndarray)): # single bound broadcast over all dimensions
+                v = np.ravel(diff)[0]**self.dim
             else:
                 v = diff**self.dim
             return_val = np.log(1.0/v)
